@@ -4,7 +4,8 @@ Monitor shape: exhaustive bijection check of the real BitwiseFFX / BitwiseFPEPRP
 inverse + length checks on random wide inputs (to 2100 bits, around multiples of the 160-bit digest),
 exhaustive injectivity of the Luby-Rackoff PRP on all 65 536 two-byte messages, sampled injectivity for
 4..64-byte messages, length contracts, and an in-situ hook on the PRP instances of SSE-1 / SSE-2 while the
-real EDBSetup runs (addresses must be collision-free and in range).
+real EDBSetup runs (addresses must be collision-free and in range), and "hostile callers": one object shared across
+keys held in a reused bytearray, alternating keys, refused calls followed by valid ones (reference: fresh objects).
 """
 from vlib.common import fp, exc_site
 
@@ -32,6 +33,9 @@ def plan(tier, seed):
     for i in range(3 if tier == "quick" else 12):
         specs.append({"name": f"ffx-shared-object{i}", "kind": "ffx_shared", "index": i})
     specs.append({"name": "contracts", "kind": "contracts"})
+    for i in range(2 if tier == "quick" else 8):
+        specs.append({"name": f"hostile-callers{i}", "kind": "hostile", "index": i,
+                      "rounds": 12 if tier == "quick" else 400})
     for i in range(2 if tier == "quick" else 8):
         specs.append({"name": f"insitu{i}", "kind": "insitu", "index": i, "rounds": 3 if tier == "quick" else 150})
     return specs
@@ -262,6 +266,147 @@ def _run_shard(spec, acc, ctx):
             output_length=3, message_length=3, key_length=8)))
     elif kind == "insitu":
         insitu(spec, acc, ctx)
+    elif kind == "hostile":
+        hostile(spec, acc, ctx)
+
+
+def hostile(spec, acc, ctx):
+    """One cipher / PRP object shared by a caller that (a) keeps its key in ONE bytearray and overwrites it in place
+    when it switches keys, (b) alternates between keys, (c) makes a refused call (wrong key or message length) and
+    then goes on with valid ones.  Reference: a fresh object per (key, width) fed immutable bytes."""
+    from toolkit.bits import Bitset
+    from toolkit.symmetric_encryption.fpe import BitwiseFFX
+    import toolkit.prp as prp_mod
+    rng = ctx.rng
+    lr_cls = prp_mod.get_prp_implementation("HmacLubyRackoffPRP")
+    fpe_cls = prp_mod.get_prp_implementation("BitwiseFPEPRP")
+    for rnd in range(spec["rounds"]):
+        if ctx.out_of_time():
+            break
+        acc.count("cases")
+        acc.add("distinct", fp("h", spec["index"], rnd))
+        # ---------------- FFX: one object, one key buffer
+        n = rng.randint(2, 7)
+        kl = rng.choice([16, 24, 32])
+        k1, k2 = rng.randbytes(kl), rng.randbytes(kl)
+        ref = {k: [int(BitwiseFFX().encrypt(k, Bitset(x, n))) for x in range(1 << n)] for k in (k1, k2)}
+        case = {"n": n, "k1": k1, "k2": k2, "hostile": True}
+        ffx = BitwiseFFX()
+        kbuf = bytearray(k1)
+        acc.count("hostile.ffx_reused_key_buffer")
+        try:
+            seq = [k1, k2, k1, k2, k2, k1]
+            bad = None
+            for step, k in enumerate(seq):
+                kbuf[:] = k
+                xs = list(range(1 << n))
+                if step % 2:
+                    rng.shuffle(xs)
+                got = {x: int(ffx.encrypt(kbuf, Bitset(x, n))) for x in xs[:max(2, len(xs) // (1 + step % 3))]}
+                if bytes(kbuf) != k:
+                    bad = ("key-buffer-mutated", f"step {step}: the cipher changed the caller's key buffer")
+                    break
+                wrong = [x for x, y in got.items() if y != ref[k][x]]
+                if wrong:
+                    bad = ("reused-key-buffer", f"step {step} of keys {['k1' if q == k1 else 'k2' for q in seq]}: with the "
+                                                f"key held in one bytearray that is overwritten in place, encrypt gives "
+                                                f"{len(wrong)} of {len(got)} values that differ from a fresh object's "
+                                                f"permutation under the buffer's current content (n={n})")
+                    break
+                x0 = xs[0]
+                if int(ffx.decrypt(kbuf, Bitset(ref[k][x0], n))) != x0:
+                    bad = ("reused-key-buffer", f"step {step}: decrypt under the buffer's current key is not the inverse")
+                    break
+            if bad:
+                acc.violation("ffx:" + bad[0], bad[1], case)
+        except TypeError:
+            acc.count("hostile.bytearray_refused")
+        # alternate two immutable keys on one object
+        ffx = BitwiseFFX()
+        acc.count("hostile.ffx_alternating_keys")
+        for step in range(8):
+            k = (k1, k2)[step % 2]
+            x = rng.randrange(1 << n)
+            if int(ffx.encrypt(k, Bitset(x, n))) != ref[k][x]:
+                acc.violation("ffx:alternating-keys", f"one object used with two keys in turn: encrypt under key "
+                                                      f"{'k1' if k == k1 else 'k2'} differs from a fresh object (n={n})", case)
+                break
+        # ---------------- bit-PRP: refused call, then valid ones
+        kb = kl * 8
+        prp = fpe_cls(message_bit_length=n, key_bit_length=kb)
+        K = Bitset(k1, kb)
+        before = [int(prp(K, Bitset(x, n))) for x in range(1 << n)]
+        acc.count("hostile.fpe_after_refusal")
+        for badcall in (lambda: prp(Bitset(0, kb + 8), Bitset(0, n)), lambda: prp(Bitset(0, kb - 8), Bitset(0, n)),
+                        lambda: prp(K, Bitset(0, n + 1)), lambda: prp(K, Bitset(0, n - 1)) if n > 2 else None):
+            try:
+                badcall()
+            except Exception:
+                pass
+            after = [int(prp(K, Bitset(x, n))) for x in range(1 << n)]
+            if after != before or before != ref[k1]:
+                acc.violation("fpe-prp:changed-after-refused-call", f"after a refused call the same PRP object maps "
+                                                                    f"{sum(a != b for a, b in zip(after, before))} of "
+                                                                    f"{1 << n} inputs differently (n={n})", case)
+                break
+        # ---------------- Luby-Rackoff: refused call, alternating keys, reused key buffer
+        mlen = rng.choice([2, 4, 8, 16])
+        klen = 3 * rng.choice([1, 8, 16])
+        key, key_b = rng.randbytes(klen), rng.randbytes(klen)
+        msgs = [rng.randbytes(mlen) for _ in range(40)]
+        fresh = lambda k: lr_cls(message_length=mlen, key_length=klen)
+        ref_a = [fresh(key)(key, m) for m in msgs]
+        ref_b = [fresh(key_b)(key_b, m) for m in msgs]
+        lcase = {"message_length": mlen, "key_length": klen, "key": key, "hostile": True}
+        prp = lr_cls(message_length=mlen, key_length=klen)
+        acc.count("hostile.lr_after_refusal")
+        ok = [prp(key, m) for m in msgs] == ref_a
+        for badkey in (key + rng.randbytes(3), key[:-3] if klen > 3 else key + b"\x00" * 3, key + key, rng.randbytes(klen + 1)):
+            try:
+                prp(badkey, msgs[0])
+                acc.violation("lr:contract:key-length-accepted", f"a {len(badkey)}-byte key accepted by a PRP declared "
+                                                                 f"with key_length={klen}", lcase)
+            except ValueError:
+                pass
+            except Exception:
+                pass
+            try:
+                prp(key, msgs[0] + b"\x00")
+            except Exception:
+                pass
+            try:
+                now = [prp(key, m) for m in msgs]
+            except Exception as e:
+                now = repr(e)
+            if now != ref_a:
+                ok = False
+                acc.violation("lr:changed-after-refused-call",
+                              f"valid key, then a refused {len(badkey)}-byte key, then the valid key again on the same "
+                              f"object: " + (f"{sum(a != b for a, b in zip(now, ref_a))} of {len(msgs)} outputs differ "
+                                             f"from before" if isinstance(now, list) else f"valid calls now raise {now}"),
+                              lcase)
+                break
+        if ok:
+            acc.count("hostile.lr_alternating_keys")
+            for step in range(6):
+                k, r = ((key, ref_a), (key_b, ref_b))[step % 2]
+                j = rng.randrange(len(msgs))
+                if prp(k, msgs[j]) != r[j]:
+                    acc.violation("lr:alternating-keys", "one object used with two keys in turn differs from fresh "
+                                                         "objects", lcase)
+                    break
+            kbuf = bytearray(key)
+            try:
+                a = prp(kbuf, msgs[0])
+                kbuf[:] = key_b
+                b = prp(kbuf, msgs[0])
+                kbuf[:] = key
+                a2 = prp(kbuf, bytearray(msgs[1]))
+                if (a, b, a2) != (ref_a[0], ref_b[0], ref_a[1]) or bytes(kbuf) != key:
+                    acc.violation("lr:reused-key-buffer", "with the key held in one bytearray overwritten in place, the "
+                                                          "PRP does not follow the buffer's current content", lcase)
+            except TypeError:
+                acc.count("hostile.bytearray_refused")
 
 
 def insitu(spec, acc, ctx):
@@ -340,6 +485,10 @@ def insitu(spec, acc, ctx):
 def replay(case, acc, ctx):
     from toolkit.bits import Bitset
     from toolkit.symmetric_encryption.fpe import BitwiseFFX
+    if case.get("hostile"):
+        hostile({"index": 0, "rounds": 40}, acc, ctx)
+        acc.count("replayed")
+        return
     if "n" in case and "key" in case:
         n, key = case["n"], case["key"]
         ffx = BitwiseFFX()
@@ -367,6 +516,8 @@ def finish(m, tier, seed):
         inc.append("shared-cipher-object workload missing")
     if c.get("ffx.decrypt", 0) < 5000:
         inc.append("too few FFX inverse checks")
+    if c.get("hostile.lr_after_refusal", 0) < 10 or c.get("hostile.ffx_reused_key_buffer", 0) < 10:
+        inc.append("hostile-caller workload missing")
     if c.get("insitu.prp_calls", 0) < 50 or len(m["sets"].get("insitu_schemes", [])) < 2:
         inc.append("in-situ PRP hook observed too few calls")
     for fn in ("toolkit/symmetric_encryption/fpe.py:BitwiseFFX.encrypt",
@@ -391,6 +542,7 @@ def finish(m, tier, seed):
         "luby_rackoff_calls": c.get("lr.calls", 0),
         "luby_rackoff_message_lengths": sorted(int(x) for x in m["sets"].get("lr_message_lengths", [])),
         "contract_checks": {k[9:]: v for k, v in c.items() if k.startswith("contract.")},
+        "hostile_callers": {k[8:]: v for k, v in c.items() if k.startswith("hostile.")},
         "insitu": {k: v for k, v in c.items() if k.startswith("insitu.")},
     }
     return {"coverage": cov, "inconclusive": inc,
